@@ -304,3 +304,35 @@ def sticky(rep, F, fns, rule='R-STICKY'):
             else:
                 rep.violation(rule, key, 'after the integer root is taken the radicand is never consulted again: an inexact root whose guard digits are all zero is rounded as if exact (Up/Ceiling/ties wrong)', f.where(rt['loc']['line']))
     return n
+
+
+# ---------------------------------------------------------------- R-SIGN (iii): sign-blind rounding increments
+def rounding_term_sign(rep, F, rule='R-SIGN'):
+    """`get_rounding_term(r)` decides "round up?" from the leading digit of a NON-NEGATIVE remainder (for a
+    negative argument every comparison `r < 10^k` is true).  Each call site must therefore either pass a
+    magnitude (abs / magnitude image) or be dominated by a test that establishes the operand's sign; and the
+    increment must not be added blindly to a possibly negative integer."""
+    from rules import panic
+    n = 0
+    helper = [f for f in F.real_fns() if f.name.split('::')[-1] == 'get_rounding_term' and not f.is_closure]
+    if not helper:
+        return 0
+    h = helper[0]
+    for g in F.real_fns():
+        pv = None
+        for bid, t in g.calls():
+            if cres(t) != h.name:
+                continue
+            n += 1
+            pv = pv or panic.Provenance(g)
+            key = '%s|get_rounding_term:operand-sign-known' % g.key
+            argp = pv.of_op(t['args'][0], 4)
+            is_mag = re.search(r'abs\(|magnitude\(|unsigned_abs|BigUint', argp) is not None
+            conds = panic.dominating_conditions(g, bid, pv)
+            signed_ok = any(re.search(r'is_negative|is_positive|::sign|sign\(', c) for c, e in conds)
+            if is_mag or signed_ok:
+                rep.ok(rule, key, 'rounding term computed from %s' % ('a magnitude' if is_mag else 'an operand whose sign is established by a dominating test'), g.where(t['loc']['line']))
+            else:
+                rep.violation(rule, key, 'the rounding increment is computed from a possibly negative remainder (%s) and added without regard to the sign: negative values are truncated toward zero instead of rounded like their negation'
+                              % argp[:80], g.where(t['loc']['line']))
+    return n
